@@ -987,8 +987,11 @@ pub fn check_c06_info_tool(case: &PipeCase, image: &[u8]) -> Verdict {
         return Verdict::Skip("HARNESS: scratch write".into());
     }
     let sub = if case.kind == Kind::Wig { "bigwiginfo" } else { "bigbedinfo" };
-    let out = match std::process::Command::new(&bin).arg(sub).arg(tmp.path()).output() {
+    let mut cmd = std::process::Command::new(&bin);
+    cmd.arg(sub).arg(tmp.path());
+    let out = match crate::pipesim::output_with_deadline(cmd, 60) {
         Ok(o) => o,
+        Err(e) if e.kind() == std::io::ErrorKind::TimedOut => return viol("info-tool", format!("{} {}", sub, e)),
         Err(e) => return Verdict::Skip(format!("HARNESS: cannot run {}: {}", bin, e)),
     };
     if !out.status.success() {
